@@ -59,6 +59,7 @@ structure Entry where
   nameEmpty    : Bool := false
   nameParts    : Nat  := 3       -- `len(strings.Split(name, "/"))`
   emptyPart    : Bool := false   -- some part is ""
+  nameLong     : Bool := false   -- the name is longer than 65535 bytes (the V2 file header cannot carry it)
   exist        : Bool := true    -- `IsExistSwamp`
   keys         : Keys := .ok
   kvNil        : Bool := false
@@ -71,6 +72,7 @@ structure Entry where
   cap          : CapC := .absent
   lockKeyEmpty : Bool := false
   lockIdEmpty  : Bool := false
+  lockHeld     : Bool := false   -- the business-lock key of a `Lock` request is held by another caller (the request has to wait)
   telemetryOff : Bool := true
   engine       : Eng  := .ok
   deriving DecidableEq, Repr, Inhabited
@@ -85,10 +87,10 @@ structure Shape where
 /-! ### Guard programs -/
 
 inductive Atom where
-  | nameEmpty | nameInvalid | notExist | notExistChk
+  | nameEmpty | nameInvalid | nameLong | notExist | notExistChk
   | keysNil | keysLen0 | keysEmptyNN | key0Empty
   | kvNil | keyInvalid | fromNeg | incZero | opsEmpty | metaNil | patchesEmpty | capErr | bodyCapErr
-  | lockKeyEmpty | lockIdEmpty | telemetryOff
+  | lockKeyEmpty | lockIdEmpty | lockHeld | telemetryOff
   deriving DecidableEq, Repr, Inhabited
 
 inductive Cond where
@@ -168,6 +170,7 @@ def Entry.nameInvalid (e : Entry) : Bool := e.nameParts != 3 || e.emptyPart
 def atomEval (cx : Ctx) (e : Entry) : Atom → Option Bool
   | .nameEmpty    => some e.nameEmpty
   | .nameInvalid  => some e.nameInvalid
+  | .nameLong     => some e.nameLong
   | .notExist     => some (!e.exist)
   | .notExistChk  => some (cx.checkExist && !e.exist)
   | .keysNil      => some (e.keys == .nil)
@@ -188,6 +191,7 @@ def atomEval (cx : Ctx) (e : Entry) : Atom → Option Bool
   | .bodyCapErr   => some (e.cap == .badMax || e.cap == .noFilter || e.cap == .badBody)
   | .lockKeyEmpty => some e.lockKeyEmpty
   | .lockIdEmpty  => some e.lockIdEmpty
+  | .lockHeld     => some e.lockHeld
   | .telemetryOff => some e.telemetryOff
 
 def condEval (cx : Ctx) (e : Entry) : Cond → Option Bool
@@ -360,13 +364,13 @@ def Code.tag : Code → String
   | .unavailable => "UNAV" | .deadlineExceeded => "DL" | .other => "OTHER"
 
 def atomOf : String → Option Atom
-  | "nameEmpty" => some .nameEmpty | "nameInvalid" => some .nameInvalid | "notExist" => some .notExist
+  | "nameEmpty" => some .nameEmpty | "nameInvalid" => some .nameInvalid | "nameLong" => some .nameLong | "notExist" => some .notExist
   | "notExistChk" => some .notExistChk | "keysNil" => some .keysNil | "keysLen0" => some .keysLen0
   | "keysEmptyNN" => some .keysEmptyNN | "key0Empty" => some .key0Empty | "kvNil" => some .kvNil
   | "keyInvalid" => some .keyInvalid | "fromNeg" => some .fromNeg
   | "incZero" => some .incZero | "opsEmpty" => some .opsEmpty | "metaNil" => some .metaNil
   | "patchesEmpty" => some .patchesEmpty | "capErr" => some .capErr | "bodyCapErr" => some .bodyCapErr
-  | "lockKeyEmpty" => some .lockKeyEmpty | "lockIdEmpty" => some .lockIdEmpty
+  | "lockKeyEmpty" => some .lockKeyEmpty | "lockIdEmpty" => some .lockIdEmpty | "lockHeld" => some .lockHeld
   | "telemetryOff" => some .telemetryOff
   | _ => none
 
